@@ -46,9 +46,9 @@ def corpus(tier, name, scale):
             src = vocab.source(p["body"], fn, place=place)
             for lvl in ("-O0", "-O1"):
                 vs.append(dict(name="%s%s" % (pn, lvl), args=[lvl] + dargs, src=src, scheme=scheme))
-        cases.append(dict(id="%s-%05d" % (p["fam"], i), variants=vs, fam=p["fam"]))
+        cases.append(dict(id="%s-%05d" % (p["fam"], i), variants=vs, fam=p["fam"], cfg=dict(text=True)))
     for (n, src) in STRESS:
-        cases.append(dict(id="stress-" + n, fam="stress", variants=[dict(name=l, args=[l], src=src, scheme="4K") for l in ("-O0", "-O1")]))
+        cases.append(dict(id="stress-" + n, fam="stress", cfg=dict(text=True), variants=[dict(name=l, args=[l], src=src, scheme="4K") for l in ("-O0", "-O1")]))
     return cases, total
 
 
@@ -59,10 +59,21 @@ def run_asm(pid, tier, kinds, scale, what):
     obs = common.run_harness("compile", cases, pid.lower())
     recs, accepted, rejected, reasons, crashed = [], 0, 0, {}, 0
     srcs = {}
+    text_checked = 0
     for c, ob in zip(cases, obs):
         for v, o in zip(c["variants"], ob):
             if o.get("status") == "ok":
                 accepted += 1
+                if pid == "C13":
+                    # what the assembler is handed is the WRITTEN text: it must spell the generated lines (both renderings)
+                    for f in o["funcs"]:
+                        if "text_plain" in f:
+                            text_checked += 1
+                            tm = asmcheck.text_mismatch(f)
+                            if tm and len(verdict.violations) < 40:
+                                verdict.violation("writtenText in %s/%s/%s: %s" % (c["id"], v["name"], f["name"], tm),
+                                                  dict(property=pid, function=f["name"], kind="writtenText", detail=tm, source=v["src"], args=v["args"],
+                                                       text_plain=f["text_plain"], text_cycles=f.get("text_cycles")))
                 rs = asmcheck.func_records(c["id"], v["name"], o, v.get("scheme", "4K"))
                 for r in rs:
                     srcs[r["id"]] = (v["src"], v["args"])
@@ -106,7 +117,7 @@ def run_asm(pid, tier, kinds, scale, what):
     cov = dict(states=res.distinct, transitions=res.generated, traces_validated_against_impl=len(recs),
                samples=[dict(function=r["id"], reported_size=r["size"], first_lines=[(l["mn"] + " " + l["syn"]) if l["k"] == "i" else l["k"] + ":" + l["name"] for l in r["lines"][:12]]) for r in recs[:3]],
                programs_compiled=accepted + rejected + crashed, accepted=accepted, rejected_by_compiler=rejected, reject_reasons=reasons,
-               functions_checked=len(recs), lines_checked=nl, mnemonic_syntax_class_triples_seen=sorted(pairs),
+               functions_checked=len(recs), lines_checked=nl, functions_whose_written_text_was_compared=text_checked, mnemonic_syntax_class_triples_seen=sorted(pairs),
                other_conditions_broken_not_part_of_this_property=drift, exhaustive=False, explanation=what)
     common.write_evidence(pid, tier, "model_checking", cov, time.time() - t0, len(verdict.violations),
                           ["Enc6502 table transcribed from the NMOS 6502 opcode matrix (self-checked)", "inline assembly counted at its declared size",
